@@ -3,13 +3,13 @@
 package saml
 
 import (
-	"crypto/x509"
 	"bytes"
 	"compress/flate"
-	"io"
+	"crypto/x509"
 	"github.com/beevik/etree"
 	"github.com/crewjam/saml/xmlenc"
 	dsig "github.com/russellhaering/goxmldsig"
+	"io"
 )
 
 func verifSigningContext(id int, keyInfo int) *dsig.SigningContext {
